@@ -1285,7 +1285,7 @@ func (c *Conn) skipFields(fr *FrameHeader, b []byte, reason error) error {
 			return err
 		}
 
-		if len(b) == 0 && hf.Empty() {
+		if !c.dec.fieldDecoded {
 			break
 		}
 
@@ -2153,7 +2153,7 @@ func (c *Conn) readHeader(fr *FrameHeader, res *fasthttp.Response) error {
 			return err
 		}
 
-		if len(b) == 0 && hf.Empty() {
+		if !c.dec.fieldDecoded {
 			// The fragment ended in a dynamic table size update, which
 			// consumes input without producing a field, or in the middle of
 			// a field that the next frame completes.
